@@ -10,6 +10,7 @@
 import Chrono.Proofs.Rfc2822ScanSoundL
 import Chrono.Proofs.ParsedZonedL
 import Chrono.Proofs.Rfc2822InbandL
+import Chrono.Proofs.Rfc2822ItemL
 import Chrono.Extracted.Rfc2822
 
 namespace Chrono.Props.C11
@@ -256,6 +257,47 @@ example : ZInv ⟨⟨dateOfYo 2020 138, ⟨45015, 1500000000⟩⟩, 3600⟩ ∧
     WallDate ⟨⟨dateOfYo 2020 138, ⟨45015, 1500000000⟩⟩, 3600⟩ 2020 138 ∧
     readBack ⟨⟨dateOfYo 2020 138, ⟨45015, 1500000000⟩⟩, 3600⟩ = ⟨⟨dateOfYo 2020 138, ⟨45016, 0⟩⟩, 3600⟩ := by
   unfold WallDate
+  decide +kernel
+
+/-! ## the same writer reached through the `Fixed::RFC2822` item -/
+
+/-- **item_shape.**  `dt.format_with_items([Item::Fixed(Fixed::RFC2822)])` written into a `String`
+(`DelayedFormat::write_to`), for EVERY well-formed zone-aware value with wall-clock date `(Y, o)`: the
+same text as `writer_shape` states for `to_rfc2822` — `Www, D Mon YYYY HH:MM:SS ` of the wall-clock
+fields (second 60 for a leap second) followed by `shownZone z.off` — when the wall-clock year is in
+0–9999; otherwise `Err(fmt::Error)` (`.ok none`), never a panic and never a text. -/
+theorem item_shape (z : Zoned) (hz : ZInv z) (Y : Int) (o : Nat) (hw : WallDate z Y o) :
+    Rfc2822.format_item_rfc2822 z =
+      if 0 ≤ Y ∧ Y ≤ 9999 then .ok (some (stdHead (fieldsOf z Y o) ++ shownZone z.off)) else .ok none :=
+  format_item_shape z hz Y o hw
+
+/-- **item_form.**  The item form and the method agree on every well-formed value: the item writes
+exactly the text `to_rfc2822` returns, and fails with `fmt::Error` exactly where `to_rfc2822` panics
+(its `expect` on that very error). -/
+theorem item_form (z : Zoned) (hz : ZInv z) :
+    Rfc2822.format_item_rfc2822 z =
+      match Rfc2822.to_rfc2822 z with
+      | .ok t => .ok (some t)
+      | .panic => .ok none := by
+  obtain ⟨Y, o, hw⟩ := wallDate_exists z hz
+  rw [item_shape z hz Y o hw, writer_shape z hz Y o hw]
+  by_cases hr : 0 ≤ Y ∧ Y ≤ 9999
+  · rw [if_pos hr, if_pos hr]
+  · rw [if_neg hr, if_neg hr]
+
+/-- the item anywhere in an item list (`%c`-like use, any zone name attached to the offset): one
+`write_to` step on a wall-clock reading `l` at offset `off` is `write_rfc2822 l off` -/
+theorem item_step (l : NaiveDT) (name : List Nat) (off : Int) :
+    Format.format_item (some l.date) (some l.time) (some (name, off)) (.fixed .rfc2822) =
+      Format.write_rfc2822 l off := rfl
+
+/-- non-vacuity / kernel evaluation of the item form: the leap second 2016-12-31T23:59:60.5Z at +05:30
+is written with second 60 (the text of `writer_shape_samples`); 9999-12-31T23:59:59Z at +00:01 (wall-clock
+year 10000) is `Err`, not a panic -/
+example :
+    Rfc2822.format_item_rfc2822 ⟨⟨dateOfYo 2016 366, ⟨86399, 1500000000⟩⟩, 19800⟩
+      = .ok (some (stdText ⟨some .sun, 1, 1, 2017, 5, 29, some 60, 19800⟩)) ∧
+    Rfc2822.format_item_rfc2822 ⟨⟨dateOfYo 9999 365, ⟨86399, 0⟩⟩, 60⟩ = .ok none := by
   decide +kernel
 
 /-- **writer_shape_samples** (kernel evaluation of the writer model on boundary values, not a
